@@ -56,6 +56,13 @@ CHECKS.update(
 CHECKS["C15"]["text"] = CHECKS["C15"]["text"] + " Controller level (L2): " + L2 + "rejected => lambda' > lambda, failure => 2*lambda and the same iterate, Exact accepted => independent implicit-Euler residual <= newton_tol componentwise, Fixed keeps lambda."
 CHECKS["C15"]["note"] = L1NOTE + " L2: n=1, m<=1, <=3 Newton iterations per trial (ExactController's 10 unwound to 3; deeper paths reported as aborted at the bound)."
 
+SC = "Self-composition on the real Solver.solve loop: two (three) solves in ONE symbolic execution against the same uninterpreted user problem, the step oracle of the later run replaying, trial by trial, the outputs the reference run received, so that any difference in what the later run asks for or returns is a solver-visible term inequality; "
+CHECKS.update(
+    C08=dict(text=SC + "B = A with iteration limit k in [0,K] symbolic, or with a deadline anywhere in its symbolic clock-read sequence: B's trials are A's prefix, B's result is A's current iterate at that moment, status is a limit status, counters agree, no rejected point leaks; the deadline between two Newton iterations of the real ExactController yields an unaccepted trial (L2).", note=L1NOTE + " The unlimited run is a run limited to K trial steps.", ref="DESIGN.md §6 C08"),
+    C09=dict(text=SC + "B = A plus observers (display interval symbolic against a symbolic clock = every pattern of displayed rows, DEBUG/INFO logging, recording callback, collect_path): identical trials, status, solution, counters, and no exception on any path; the DEBUG-level inner display of the real controllers runs at L2 without failure.", note=L1NOTE + " report_rcond is NOT covered (the condition estimator does not terminate in the solver); bit-identity in floating point outside (exact reals).", ref="DESIGN.md §6 C09"),
+    C10=dict(text=SC + "A on a new Solver, B again on the same Solver object, C on a fresh Solver afterwards: identical trials, status, solution and counters on every path; Params object unmodified.", note=L1NOTE + " Controller memory is per solve (created inside solve()); state inside compiled linear solvers outside.", ref="DESIGN.md §6 C10"),
+)
+
 NOT_APPLICABLE = {
     "C03": "liveness/convergence of hundreds of floating-point Newton iterations with data-dependent trip count: no bounded symbolic encoding can decide it (DESIGN.md §7)",
 }
